@@ -22,7 +22,7 @@ AS_IS_DEV = ["UnboundedChunkLine"]  # CapWholeBlock fixed (733fedc);   # StripPy
 
 HREJECT = {"CLbad", "TEchunkedgzip", "TEchunked2", "TEunknown", "TEnontoken", "TEpyws", "ObsFold",
            "WsColon", "BadName", "NulVal", "NoColon"}
-CLK = {"CL0", "CL1", "CL2", "CL3"}
+CLK = {"CL0", "CL1", "CL2", "CL3", "CL5"}
 TEC = {"TEchunked", "TEgzipchunked", "TEempty"}
 
 
@@ -137,7 +137,7 @@ def rand_cuts(rng, n, k=None):
 
 
 def c01(ctx):
-    fams = ["heads1", "heads2", "chunks", "trunc", "pipeline", "proxy"] + ([] if ctx.quick else ["heads3"])
+    fams = ["heads1", "heads2", "chunks", "trunc", "pipeline", "proxy", "embed"] + ([] if ctx.quick else ["heads3"])
     run_models(ctx, [(f, {"family": f}) for f in fams])
     ctx.coverage["exhaustive"] = True
     ctx.coverage["rule"] = ("TLC: every stream of the families %s x every segmentation into reads of 1..3 "
@@ -155,6 +155,9 @@ def c01(ctx):
             vs = range(nv) if nvar is None else [rng.randrange(nv) for _ in range(nvar)]
             has_body = any(m["fr"] != "none" for m in case["ms"])
             plan = [(v, "read") for v in vs] + [(v, "skip") for v in vs if not (ctx.quick and rng.random() < 0.5)]
+            if f == "embed":
+                # the body spells a request and the application ignores it: every request-line spelling
+                plan = [(v, "skip") for v in range(len(cz.RL11))]
             if has_body:
                 # the application ignores the body of a GET (spelling variant 0) / of another method (variant 1)
                 plan += [(0, "skip"), (1, "skip")]
